@@ -36,13 +36,20 @@ class Schema:
         wd = registry_dir('wgpu-types', self.versions['wgpu-types'])
         files = {'naga': os.path.join(nd, 'src', 'lib.rs'), 'wgpu': os.path.join(wd, 'src', 'lib.rs')}
         cache = os.path.join(WORK, f"schema-{self.versions['naga']}-{self.versions['wgpu-types']}.json")
+        dumped = None
         if os.path.exists(cache):
-            dumped = json.load(open(cache))
-        else:
+            try:
+                dumped = json.load(open(cache))
+            except Exception:
+                dumped = None       # being written by a concurrent run / truncated: parse the sources again
+        if dumped is None:
             raw = engine_ogp.dump_files(list(files.values()))
             dumped = {k: raw[p] for k, p in files.items()}
             os.makedirs(WORK, exist_ok=True)
-            json.dump(dumped, open(cache, 'w'))
+            tmp = f'{cache}.{os.getpid()}.tmp'
+            with open(tmp, 'w') as fh:
+                json.dump(dumped, fh)
+            os.replace(tmp, cache)      # atomic: a concurrent reader sees the old file or the complete new one
         for prefix, items in dumped.items():
             self._collect(prefix, items)
         self.sources = files
